@@ -601,6 +601,24 @@ def make_renaming(rng, plain_text, logic, profile):
         fun_classes = good + ["internal-like"] * 12
     taken = []
     picks = N2.pick_names(rng, len(funs), fun_classes, logic, taken)
+    if profile == "pool":
+        # one pool of difficult names for everything: names that need bars or are reserved words, and the names the
+        # printers generate themselves (formal parameters x0 x1 x!0, abstract values, auxiliary variables).  Symbols with
+        # arguments lean to the first kind, constants to the second, so that both meet in one printed model.
+        arity = {}
+        for cmd in smtlib.read_all(plain_text):
+            if isinstance(cmd, list) and cmd and cmd[0] == "declare-fun":
+                arity[cmd[1]] = len(cmd[2])
+        hard = ["quoted-space", "quoted-paren", "quoted-semicolon", "quoted-dquote", "quoted-newline", "quoted-misc", "quoted-utf8",
+                "digit-leading", "reserved-in-table", "sortlike"]
+        own = ["internal-like"] * 4 + ["solver-reserved"]
+        picks = []
+        for f in funs:
+            if arity.get(f, 0) > 0:
+                cls = hard * 4 + own
+            else:
+                cls = own * 3 + hard
+            picks.append(N2.pick_names(rng, 1, cls, logic, [p[0] for p in picks])[0])
     if profile == "bad-name" and not any(c in N2.BAD_CLASSES for _, c in picks) and picks:
         picks[rng.randrange(len(picks))] = N2.pick_names(rng, 1, N2.BAD_CLASSES, logic, [p[0] for p in picks])[0]
     for f, (nm, cls) in zip(funs, picks):
@@ -608,7 +626,7 @@ def make_renaming(rng, plain_text, logic, profile):
         ren.classes[nm] = cls
         taken.append(nm)
     for s in sorts:
-        if profile == "sort-name":
+        if profile == "sort-name" or (profile == "pool" and rng.random() < 0.25):
             nm = N2.pick_names(rng, 1, ["quoted-space", "reserved-in-table", "digit-leading", "quoted-paren", "quoted-semicolon"], logic, taken)[0][0]
         else:
             nm = rng.choice(["U", "U", "Sort1", "T"])
@@ -633,6 +651,8 @@ def gen_case(rng, M, mode, profile):
     c.mode, c.profile = mode, profile
     if mode == "itp":
         logic = rng.choice(["QF_UF", "QF_LRA", "QF_LIA"])
+    elif profile in ("pool", "clash") and mode in ("model", "model+value", "value"):
+        logic = rng.choice(["QF_UF", "QF_UF", "QF_UFLRA"])      # printed function definitions need functions
     else:
         logic = rng.choice(["QF_UF", "QF_LRA", "QF_LIA", "QF_UFLRA"])
     c.logic = logic
@@ -756,6 +776,28 @@ def plain_state(c):
     return sc, qs
 
 
+def raw_fn_name_cause(M, c, seg):
+    """a function definition printed with its raw name although the name needs bars: which printing path was it?
+    The known defect is the default definition of Model::getDefinition (a function without valuation: parameters as
+    created, a constant body).  A definition that went through the clash renaming (parameters x!k / y!k) or has a
+    case-split body took another path: not the known defect."""
+    for nm in c.ren.fun.values():
+        if M.quote(nm) == nm or M.protect(nm, "f")[0] == nm:
+            continue
+        k = seg.find("(define-fun %s (" % nm)
+        if k < 0:
+            continue
+        rest = seg[k + len("(define-fun %s (" % nm):]
+        header, _, body = rest.partition("\n")
+        body = body.split("\n  (define-fun ")[0]
+        if re.search(r"\((?:x|y)!\d+ ", header):
+            return "renamed-fn-name-unquoted"
+        if "(ite " in body:
+            return "valued-fn-name-unquoted"
+        return "default-fn-name-unquoted"
+    return None
+
+
 def check_model(ctx, M, c, seg, frames, sig, concrete_text, idx):
     """seg: the text printed for (get-model)"""
     art = "model"
@@ -765,8 +807,7 @@ def check_model(ctx, M, c, seg, frames, sig, concrete_text, idx):
     for cfgk in ("s", "o"):
         st, got = M.read(seg, cfgk)
         if st != "ok" or len(got) != 1 or not isinstance(got[0], list):
-            unused_raw = [nm for nm in c.ren.fun.values() if M.quote(nm) != nm and M.protect(nm, "f")[0] != nm and ("(define-fun %s (" % nm) in seg]
-            ctx.violation(classify(M, c, art, seg, "default-fn-name-unquoted" if unused_raw else None),
+            ctx.violation(classify(M, c, art, seg, raw_fn_name_cause(M, c, seg)),
                           "the printed model is not an s-expression (%s reader: %s): %r" % ("SMT-LIB" if cfgk == "s" else "opensmt", st, seg[:300]), replay)
             return None
     st, got = M.read(seg, "s")
@@ -780,8 +821,7 @@ def check_model(ctx, M, c, seg, frames, sig, concrete_text, idx):
             ks = [p for (k, p) in inv.get(d[1][1], []) if k == "fun"]
             ok = bool(ks)
         if not ok:
-            raw = [nm for nm in c.ren.fun.values() if M.quote(nm) != nm and ("(define-fun %s (" % nm) in seg]
-            ctx.violation(classify(M, c, art, seg, "default-fn-name-unquoted" if raw else None),
+            ctx.violation(classify(M, c, art, seg, raw_fn_name_cause(M, c, seg)),
                           "an entry of the printed model is not the definition of a declared symbol: %s" % N2.wire_str(d)[:300], replay)
             return None
         pname = ks[0]
@@ -946,7 +986,7 @@ def part_scripts(ctx, M, H):
     for c in corpus_cases(M):
         script_case(ctx, M, c)
     modes = ["model", "model+value", "value", "assignment", "core", "fullcore", "itp", "dump"]
-    profiles = ["good"] * 6 + ["bad-name", "sort-name", "label-name", "clash", "clash"]
+    profiles = ["good"] * 4 + ["pool"] * 4 + ["bad-name", "sort-name", "label-name", "clash", "clash"]
     n = 72 if ctx.quick else 700
     for it in range(n):
         mode = modes[it % len(modes)] if it < 6 * len(modes) else rng.choice(modes)
